@@ -547,8 +547,61 @@ func c04ParamSweep(ctx *Ctx, i int, drv int) {
 	ctx.Emit(Case{I: i, Kind: "param-sweep-" + driverNames[drv], Coq: a.caseCoq(items), Desc: map[string]interface{}{"requests": reqs}, Monitor: mon})
 }
 
+// c04LayoutMix: one node alternates between the deprecated and the current layout of
+// vipnode_update, with and without reported peers: every correctly signed fresh request is
+// accepted, whatever the node sent before.
+func c04LayoutMix(ctx *Ctx, i int, drv int) {
+	a := newAuthWorld(drv)
+	defer a.Close()
+	rng := ctx.Sub(i)
+	var mon []string
+	var log []string
+	id := a.realID("c1")
+	for k := 0; k < 24; k++ {
+		legacy := rng.Intn(2) == 0
+		empty := rng.Intn(2) == 0
+		if k < 4 { // the shortest mixes first
+			legacy, empty = k%2 == 0, true
+		}
+		var peers []string
+		if !empty {
+			peers = []string{nodeIDOf("h1")}
+		}
+		req := pool.UpdateRequest{PeerInfo: peerInfos(peers), BlockNumber: uint64(100 + k)}
+		nonce := a.nextNonce()
+		var sig string
+		if legacy {
+			req.Peers = peers
+			if req.Peers == nil {
+				req.Peers = []string{}
+			}
+			req.PeerInfo = nil
+			sig = signNodeStyle(keyFor("c1"), "vipnode_update", id, nonce, []interface{}{oldUpdate{req.Peers, req.BlockNumber}})
+		} else {
+			sig = signNodeStyle(keyFor("c1"), "vipnode_update", id, nonce, []interface{}{req})
+		}
+		err := a.call("vipnode_update", sig, id, nonce, []interface{}{req})
+		log = append(log, fmt.Sprintf("layout=%s peers=%d: %v", map[bool]string{true: "deprecated", false: "current"}[legacy], len(peers), err))
+		if classify(err).Class == "verify" {
+			mon = append(mon, fmt.Sprintf("c04-valid-refused: keep-alive %d of the node (signed over the %s layout, %d peers, fresh nonce) was refused by verification: %v; earlier keep-alives: %v", k, map[bool]string{true: "deprecated", false: "current"}[legacy], len(peers), err, log))
+			break
+		}
+		if k%6 == 5 { // re-register in between now and then
+			args := a.argsFor("vipnode_connect", 0)
+			n2 := a.nextNonce()
+			a.call("vipnode_connect", signNodeStyle(keyFor("c1"), "vipnode_connect", id, n2, args), id, n2, args)
+		}
+	}
+	ctx.Emit(Case{I: i, Kind: "layout-mix-" + driverNames[drv], Desc: map[string]interface{}{"keepalives": log}, Monitor: mon})
+}
+
 func runC04(ctx *Ctx) {
 	n := ctx.N(24, 600)
+	for k := 0; k < ctx.N(4, 40); k++ {
+		if ctx.Want(n + 70 + k) {
+			c04LayoutMix(ctx, n+70+k, k%2)
+		}
+	}
 	for k := 0; k < 4; k++ {
 		if ctx.Want(n + 50 + k) {
 			c04ParamSweep(ctx, n+50+k, k%2)
@@ -587,6 +640,75 @@ func runC04(ctx *Ctx) {
 
 // C06: refused requests interleaved at any point of a valid session; afterwards the owner's
 // request with a smaller but fresh nonce must still be accepted.
+// c06HostConnection: refused requests arriving on the very connection a host is registered on
+// (a replayed or mis-signed vipnode_connect / vipnode_host of that host): they leave no trace --
+// the host stays registered and instructable on that connection.
+func c06HostConnection(ctx *Ctx, i int, drv int) {
+	a := newAuthWorld(drv)
+	defer a.Close()
+	rng := ctx.Sub(i)
+	var mon []string
+	var log []string
+	hc := a.lastConn("h1")
+	if hc == nil {
+		fatal("h1 has no connection")
+	}
+	id := nodeIDOf("h1")
+	for k := 0; k < 8; k++ {
+		method := []string{"vipnode_connect", "vipnode_host"}[k%2]
+		var arg interface{} = pool.ConnectRequest{VipnodeVersion: "verif", NodeInfo: userAgentFor("geth", true), NodeURI: "enode://" + id + "@10.1.1.1:30303"}
+		if method == "vipnode_host" {
+			arg = pool.HostRequest{Kind: "geth", NodeURI: "enode://" + id + "@10.1.1.1:30303"}
+		}
+		nonce := a.nextNonce()
+		sig := signNodeStyle(keyFor("h1"), method, id, nonce, []interface{}{arg})
+		what := ""
+		switch rng.Intn(4) {
+		case 0:
+			what, sig = "garbage signature", "AAAA"
+		case 1:
+			what, sig = "signed by another key", signNodeStyle(keyFor("h2"), method, id, nonce, []interface{}{arg})
+		case 2:
+			what = "stale nonce"
+			nonce = time.Now().UnixNano() - int64(store.ExpireNonce) - 5e9
+			sig = signNodeStyle(keyFor("h1"), method, id, nonce, []interface{}{arg})
+		default:
+			what = "nonce below the last one"
+			nonce = 5
+			sig = signNodeStyle(keyFor("h1"), method, id, nonce, []interface{}{arg})
+		}
+		before := a.digest(a.nodes, a.wallets)
+		var res json.RawMessage
+		cctx, cancel := context.WithTimeout(context.Background(), 8*time.Second)
+		err := hc.cliSide.Call(cctx, &res, method, sig, id, nonce, arg)
+		cancel()
+		after := a.digest(a.nodes, a.wallets)
+		log = append(log, fmt.Sprintf("%s with %s over h1's own connection: %v", method, what, err))
+		if err == nil {
+			mon = append(mon, fmt.Sprintf("c04-forged-accepted: %s with %s was accepted", method, what))
+		}
+		if before != after {
+			mon = append(mon, fmt.Sprintf("c06-refused-left-trace: a refused %s (%s) arriving on the connection host h1 is registered on changed the pool state (registry entries, records): a refused request has no effect, wherever it arrives", method, what))
+		}
+		// and the host is still instructable
+		a.takeCalls()
+		cctx, cancel = context.WithTimeout(context.Background(), 8*time.Second)
+		a.peerCtx(cctx, "c2", 2, "geth")
+		cancel()
+		reached := false
+		for _, c := range a.takeCalls() {
+			if c.Method == "whitelist" && strings.HasPrefix(c.Host, "h1#") {
+				reached = true
+			}
+		}
+		if !reached {
+			mon = append(mon, fmt.Sprintf("c06-refused-left-trace: after a refused %s (%s) on its connection, host h1 no longer receives whitelist instructions", method, what))
+			break
+		}
+	}
+	ctx.Emit(Case{I: i, Kind: "refused-on-host-connection-" + driverNames[drv], Desc: map[string]interface{}{"requests": log}, Monitor: mon})
+}
+
 // c06Crowd: a request carrying a few-minutes-old (still fresh) nonce is accepted; hundreds of
 // other identities use the pool; the first request is replayed verbatim. It is a repeat: it must
 // be refused and leave no trace, however busy the nonce table has been in between.
@@ -627,6 +749,9 @@ func runC06(ctx *Ctx) {
 	for drv := 0; drv < 2; drv++ {
 		if ctx.Want(n + 50 + drv) {
 			c06Crowd(ctx, n+50+drv, drv)
+		}
+		if ctx.Want(n + 60 + drv) {
+			c06HostConnection(ctx, n+60+drv, drv)
 		}
 	}
 	forEachCase(ctx, n, func(i int, rng *rand.Rand) {
